@@ -93,6 +93,27 @@ def swap_kinds(t, rng):
     return t
 
 
+def union_sizes(t):
+    """the number of distinct members of every Union in a type, in traversal order"""
+    if t is None:
+        return []
+    k = t[0]
+    if k == 'union':
+        out = [len(set(map(repr, t[1])))]
+        for m in t[1]:
+            out += union_sizes(m)
+        return out
+    if k == 'seq':
+        return union_sizes(t[2])
+    if k == 'map':
+        return union_sizes(t[2]) + union_sizes(t[3])
+    return []
+
+
+def spec_union_sizes(spec, t):
+    return [union_sizes(t)] + [union_sizes(p.get('type')) for c in spec for p in c.get('params', [])]
+
+
 def add_fix(t):
     k = t[0]
     if k == 'seq':
@@ -303,6 +324,11 @@ def explore(ctx):
             elif tr == 'kinds':
                 spec2 = map_spec_types(c.spec, lambda t: swap_kinds(t, rng))
                 t2 = swap_kinds(c.doc_type, rng)
+                if spec_union_sizes(spec2, t2) != spec_union_sizes(c.spec, c.doc_type):
+                    # the interchange would merge two members of a Union (Union[List[int], Sequence[int]]
+                    # -> Union[List[int]]): that changes the model's meaning, see DESIGN 7a
+                    ctx.count('kinds_skipped:union-members-merge')
+                    continue
             elif tr == 'boolfix':
                 spec2 = map_spec_types(c.spec, add_fix)
                 t2 = add_fix(c.doc_type)
